@@ -95,6 +95,7 @@ type c02Cfg struct {
 	GC      bool   `json:"gc"`      // RemoveUntraceableBlocks (+ small MaxTraceableBlocks and GC period)
 	Backend string `json:"backend"` // mem | leveldb | bolt
 	P2PSX   bool   `json:"p2psx,omitempty"` // P2PStateExchangeExtensions (state jump scenario)
+	NeoFS   bool   `json:"neofs,omitempty"` // NeoFSStateSyncExtensions: contract-storage-based state synchronisation
 	KOLS    bool   `json:"kols,omitempty"`  // KeepOnlyLatestState
 	Trusted uint32 `json:"trusted,omitempty"` // TrustedHeader index (hash taken from the source chain)
 	NoVerify bool  `json:"noverify,omitempty"` // VerifyTransactions off
@@ -109,7 +110,7 @@ const (
 
 func (c c02Cfg) hook(b *config.Blockchain) {
 	b.StateRootInHeader = c.SRIH
-	if c.GC || c.P2PSX {
+	if c.GC || c.P2PSX || c.NeoFS {
 		b.MaxTraceableBlocks = c02MTB
 		b.MaxValidUntilBlockIncrement = c02MTB / 2
 	}
@@ -119,6 +120,12 @@ func (c c02Cfg) hook(b *config.Blockchain) {
 	}
 	if c.P2PSX {
 		b.P2PStateExchangeExtensions = true
+		b.StateSyncInterval = c02SSI
+	}
+	if c.NeoFS {
+		b.NeoFSStateSyncExtensions = true
+		b.NeoFSStateFetcher.Enabled = true
+		b.NeoFSBlockFetcher.Enabled = true
 		b.StateSyncInterval = c02SSI
 	}
 	b.Ledger.KeepOnlyLatestState = c.KOLS
